@@ -14,7 +14,8 @@ RULE = ("E2c: request sequences (1-6 requests of declare_static_files / register
         "define_step / amend_step, each in its own transaction on a real Workflow over in-memory SQLite with a "
         "RUNNING plan step and RUNNING steps A, B, C as creators) and every ordered pair of request kinds "
         "{static, tree, glob, define-out, define-vol, define-inp, amend-out, amend-vol, amend-inp} executed in "
-        "BOTH orders after a random prefix, with path spellings: same path, path under the tree, the tree's own "
+        "BOTH orders, systematically (every kind pair x identical/distinct creators x 4 path relations, no "
+        "randomness) and randomly after a random prefix (identical and distinct creators alternating), with path spellings: same path, path under the tree, the tree's own "
         "name as a file, siblings sharing a name prefix, differing ASCII case, '%' and '_' in names, directories; "
         "model (coq/model/Claims.v evaluated by vm_compute) versus implementation: per request accept/reject, "
         "exception class, exact message text; after the sequence the attached file nodes with role and creator "
@@ -342,12 +343,13 @@ def related_variants(rng, pool, kind):
     return rng.choice(file_opts)
 
 
-def gen_pair(rng, k1, k2):
-    """(prefix, r1, r2): two requests of the given kinds by different creators about related paths."""
+def gen_pair(rng, k1, k2, same_creator=False):
+    """(prefix, r1, r2): two requests of the given kinds about related paths, by two different
+    creators or (same_creator) by one and the same creator."""
     pool = Pool(rng)
     prefix = gen_sequence(rng, rng.choice([0, 0, 1, 2]), pool)
     c1, c2 = rng.sample(CREATORS, 2)
-    if rng.random() < 0.1:
+    if same_creator:
         c2 = c1
     p = related_variants(rng, pool, k1)
     q = p if rng.random() < 0.6 else related_variants(rng, pool, k2)
@@ -372,6 +374,49 @@ def gen_pair(rng, k1, k2):
         return ("amend", creator, inps, outs, vols)
 
     return prefix, mk(k1, c1, p), mk(k2, c2, q)
+
+
+# Path relations of the systematic pair block: (path of r1, path of r2, tree of r1, tree of r2).
+RELATIONS = {
+    "same-path-under-tree": ("data/x", "data/x", "data", "data/sub"),
+    "both-under-tree": ("data/x", "data/sub/y", "data", "data"),
+    "tree-name": ("data", "data", "data", "data/"),
+    "sibling-prefix": ("data0/x", "data/x", "data", "data0"),
+}
+
+
+def systematic_pairs():
+    """Every ordered pair of the nine request kinds, with identical and with distinct creators, for
+    every path relation; no randomness, so this class is covered on every run and seed."""
+    from stepup.core.nglob import convert_nglob_to_regex
+    rx = re.compile(convert_nglob_to_regex("data/*", {}))
+    out = []
+    n = 0
+    for rel, (p, q, t1, t2) in RELATIONS.items():
+        for same in (True, False):
+            for k1 in KINDS:
+                for k2 in KINDS:
+                    n += 1
+
+                    def mk(kind, creator, path, tree, label):
+                        if kind == "static":
+                            return ("static", creator, [path])
+                        if kind == "tree":
+                            return ("tree", creator, tree)
+                        if kind == "glob":
+                            # the match is recorded: what a client-side scan of an existing file reports
+                            return ("glob", creator, "data/*", [path] if rx.fullmatch(path) else [])
+                        role = kind.split("-")[1]
+                        inps, outs, vols = [], [], []
+                        {"out": outs, "vol": vols, "inp": inps}[role].append(path)
+                        if kind.startswith("define"):
+                            return ("define", creator, label, inps, outs, vols)
+                        return ("amend", creator, inps, outs, vols)
+
+                    c1 = "A"
+                    c2 = "A" if same else "B"
+                    out.append((rel, same, [], mk(k1, c1, p, t1, f"n{n}a"), mk(k2, c2, q, t2, f"n{n}b")))
+    return out
 
 
 def nontrivial(reqs):
@@ -525,10 +570,14 @@ def _collect(ctx):
     reps = ctx.scale(5, 50)
     for prefix, r1, r2 in CORPUS_PAIRS:
         pairs.append((prefix, r1, r2))
+    for rel, same, prefix, r1, r2 in systematic_pairs():
+        pairs.append((prefix, r1, r2))
+        ctx.count("systematic_pairs_" + ("same_creator" if same else "distinct_creators"))
     for k1 in KINDS:
         for k2 in KINDS:
-            for _ in range(reps):
-                pairs.append(gen_pair(rng, k1, k2))
+            for i in range(reps):
+                # alternate: identical creators / distinct creators
+                pairs.append(gen_pair(rng, k1, k2, same_creator=(i % 2 == 1)))
     pair_results = []
     for prefix, r1, r2 in pairs:
         a = run(execute(prefix + [r1, r2]))
